@@ -2,6 +2,7 @@
 sequence.  pyvc verifies them modularly — only the callees' contracts are used — so a property
 that spans two functions becomes a postcondition over their contracts; natively they run the
 real functions."""
+from openmdao.core.constants import INF_BOUND   # noqa: F401  (named in clauses of lemma contracts)
 
 
 def roundtrip_norm_phys(vec, mode):
@@ -84,3 +85,14 @@ def input_phys_from_norm(norm, ref, ref0, factor, offset):
     phys_in = norm * scale1 + scale0            # _scale_reverse on the input vector
     phys_out = norm * a1 + a0                   # _scale_reverse on the source output
     return phys_in, phys_out
+
+
+# ---- C21 ------------------------------------------------------------------------------------
+def registered_constraint_values(driver, x, name, j, both_sides):
+    """What scipy sees for element j of a constraint registered by the dict-constraint loop body: the
+    single-sided value and, when the element is bounded on both sides, the dbl=True value."""
+    v1 = driver._confunc(x, name, False, j)
+    if both_sides:
+        v2 = driver._confunc(x, name, True, j)
+        return v1, v2
+    return v1, 0.0
